@@ -58,7 +58,7 @@ impl Sim {
             Op::RouterQuote { hops, amount, reverse } => {
                 self.audit_router_quote(ev, hops, amount.u128(), *reverse, cov)
             }
-            Op::Walk { limit } => self.audit_walk(ev, *limit, cov),
+            Op::Walk { limit, flip } => self.audit_walk(ev, *limit, *flip, cov),
             Op::AuditRegistry {} => {
                 crate::orc_factory::audit_registry(self, ev.seq, cov);
                 out("audit")
@@ -385,7 +385,7 @@ impl Sim {
         out("audit")
     }
 
-    fn audit_walk(&mut self, ev: &Event, limit: Option<u32>, cov: &mut Cover) -> StepOut {
+    fn audit_walk(&mut self, ev: &Event, limit: Option<u32>, flip: bool, cov: &mut Cover) -> StepOut {
         let m = &self.model;
         let total = m.pairs.len();
         let mut seen: Vec<String> = vec![];
@@ -431,7 +431,11 @@ impl Sim {
                 seen.push(pi.contract_addr.clone());
             }
             let last = page.last().unwrap();
-            start_after = Some(last.asset_infos.clone());
+            start_after = Some(if flip {
+                [last.asset_infos[1].clone(), last.asset_infos[0].clone()]
+            } else {
+                last.asset_infos.clone()
+            });
             if limit == Some(0) {
                 break;
             }
@@ -443,7 +447,7 @@ impl Sim {
         };
         cov.case(
             "C19",
-            format!("n{}|limit{:?}|{}", total, limit, shape),
+            format!("n{}|limit{:?}|{}|flip{}", total, limit, shape, flip),
         );
         if limit == Some(0) {
             return out("audit");
